@@ -10,24 +10,21 @@
    The proofs are boolean checkers evaluated by vm_compute over these tables and lifted to the
    Prop statements by lemmas proved once and for all (proofs/FfiProofs.v).
 
-   The clauses of the property are false of the current source without exceptions; each false
-   clause is kept as `..._full`, refuted with a witness from the table, and proved with the
-   exact list of exceptions (pinned at the end of this file; each entry proved real). *)
+   Totality, top-level injectivity and codes <> IOX2_OK hold without exception (after the repairs
+   76b0be9 c6bf028 41ac4e3 e07cbfb bd7254f in /repo).  Leaf-level injectivity and distinct names
+   are false of the current source: each is kept as `..._full`, refuted with a witness from the
+   table, and proved with the exact list of exceptions (pinned at the end of this file; each
+   entry proved real). *)
 From V Require Import model.Base model.Ffi proofs.FfiProofs proofs.FfiTable gen.FfiEnums.
 From Coq Require Import String.
 Open Scope string_scope.
 
 (* ---- total ---- *)
 (* every leaf of every Rust enum with an IntoCInt impl is mapped to a code of an existing
-   variant of a C enum -- except the two listed leaves, on which into_c_int never returns *)
-Theorem c18_total : forall m, In m ffi_rmaps -> total ffi_cenums known_diverging m.
+   variant of a C enum (no arm diverges, none names a missing variant) *)
+Theorem c18_total : forall m l, In m ffi_rmaps -> In l (rm_leaves m) -> exists z, leaf_code ffi_cenums l = Some z.
 Proof. exact tbl_total. Qed.
 Print Assumptions c18_total.
-
-Definition c18_total_full : Prop := forall m, In m ffi_rmaps -> total ffi_cenums [] m.
-Theorem c18_total_refuted : ~ c18_total_full.
-Proof. exact tbl_total_full_refuted. Qed.
-Print Assumptions c18_total_refuted.
 
 (* all codes of one Rust enum are variants of ONE C enum *)
 Theorem c18_single_cenum : forall m, In m ffi_rmaps -> single_cenum m.
@@ -35,16 +32,12 @@ Proof. exact tbl_single_cenum. Qed.
 Print Assumptions c18_single_cenum.
 
 (* ---- one-to-one ---- *)
-(* granularity that holds: the C code determines the top-level variant of the Rust enum,
-   except for the two listed codes *)
-Theorem c18_injective : forall m, In m ffi_rmaps -> injective_top ffi_cenums known_top_collisions m.
+(* granularity that holds without exception: the C code determines the top-level variant of
+   the Rust enum *)
+Theorem c18_injective : forall m a b z, In m ffi_rmaps -> In a (rm_leaves m) -> In b (rm_leaves m) ->
+  leaf_code ffi_cenums a = Some z -> leaf_code ffi_cenums b = Some z -> lf_top a = lf_top b.
 Proof. exact tbl_injective_top. Qed.
 Print Assumptions c18_injective.
-
-Definition c18_injective_top_full : Prop := forall m, In m ffi_rmaps -> injective_top ffi_cenums [] m.
-Theorem c18_injective_top_refuted : ~ c18_injective_top_full.
-Proof. exact tbl_injective_top_full_refuted. Qed.
-Print Assumptions c18_injective_top_refuted.
 
 (* leaf granularity (payload enums expanded): false, payloads are dropped by `X::Y(_)` arms *)
 Definition c18_injective_leaf_full : Prop := forall m, In m ffi_rmaps -> injective_leaf ffi_cenums [] m.
@@ -81,14 +74,10 @@ Proof. exact tbl_names_separate. Qed.
 Print Assumptions c18_names_separate.
 
 (* ---- no error maps to IOX2_OK ---- *)
-Theorem c18_codes_nonzero : forall m, In m ffi_rmaps -> nonzero ffi_ok ffi_cenums known_zero m.
+Theorem c18_codes_nonzero : forall m l, In m ffi_rmaps -> rm_is_error m = true -> In l (rm_leaves m) ->
+  leaf_code ffi_cenums l <> Some ffi_ok.
 Proof. exact tbl_nonzero. Qed.
 Print Assumptions c18_codes_nonzero.
-
-Definition c18_codes_nonzero_full : Prop := forall m, In m ffi_rmaps -> nonzero ffi_ok ffi_cenums [] m.
-Theorem c18_codes_nonzero_refuted : ~ c18_codes_nonzero_full.
-Proof. exact tbl_nonzero_full_refuted. Qed.
-Print Assumptions c18_codes_nonzero_refuted.
 
 (* ---- the tables are well formed (names are keys) ---- *)
 Theorem c18_tables_wf : tables_wf ffi_cenums ffi_rmaps.
@@ -96,28 +85,11 @@ Proof. exact tbl_wf. Qed.
 Print Assumptions c18_tables_wf.
 
 (* ---- every exception is a real collapse of the current source ---- *)
-Theorem c18_known_diverging_real : forall k, In k known_diverging ->
-  exists m l, In m ffi_rmaps /\ rm_name m = fst k /\ In l (rm_leaves m) /\ lf_name l = snd k /\ leaf_code ffi_cenums l = None.
-Proof. exact known_diverging_real. Qed.
-Print Assumptions c18_known_diverging_real.
-
-Theorem c18_known_top_collisions_real : forall k, In k known_top_collisions ->
-  exists m a b z, In m ffi_rmaps /\ rm_name m = fst k /\ In a (rm_leaves m) /\ In b (rm_leaves m)
-    /\ leaf_cvariant a = snd k /\ leaf_code ffi_cenums a = Some z /\ leaf_code ffi_cenums b = Some z /\ lf_top a <> lf_top b.
-Proof. exact known_top_collisions_real. Qed.
-Print Assumptions c18_known_top_collisions_real.
-
 Theorem c18_known_leaf_collapses_real : forall k, In k known_leaf_collapses ->
   exists m a b z, In m ffi_rmaps /\ rm_name m = fst k /\ In a (rm_leaves m) /\ In b (rm_leaves m)
     /\ leaf_cvariant a = snd k /\ leaf_code ffi_cenums a = Some z /\ leaf_code ffi_cenums b = Some z /\ lf_name a <> lf_name b.
 Proof. exact known_leaf_collapses_real. Qed.
 Print Assumptions c18_known_leaf_collapses_real.
-
-Theorem c18_known_zero_real : forall k, In k known_zero ->
-  exists m l, In m ffi_rmaps /\ rm_name m = fst k /\ rm_is_error m = true /\ In l (rm_leaves m)
-    /\ leaf_cvariant l = snd k /\ leaf_code ffi_cenums l = Some ffi_ok.
-Proof. exact known_zero_real. Qed.
-Print Assumptions c18_known_zero_real.
 
 Theorem c18_known_dup_names_real : forall n, In n known_dup_names ->
   exists c, In c ffi_cenums /\ ce_name c = n /\ ce_cstr c = true /\ ~ NoDup (map cv_str (ce_variants c)).
@@ -128,7 +100,6 @@ Print Assumptions c18_known_dup_names_real.
 Example c18_total_nonvacuous :
   exists m a b za zb sa sb,
     In m ffi_rmaps /\ rm_is_error m = true /\ In a (rm_leaves m) /\ In b (rm_leaves m)
-    /\ ~ In (rm_name m, lf_name a) known_diverging
     /\ leaf_code ffi_cenums a = Some za /\ leaf_code ffi_cenums b = Some zb
     /\ za <> ffi_ok /\ za <> zb /\ lf_name a <> lf_name b
     /\ leaf_str ffi_cenums a = Some sa /\ leaf_str ffi_cenums b = Some sb /\ sa <> sb /\ sa <> "".
@@ -142,13 +113,10 @@ Print Assumptions c18_names_distinct_nonvacuous.
 
 (* ---- the exception lists are part of the statements: pinned ---- *)
 Example c18_exceptions_pinned :
-  known_diverging = [ ("EventOpenOrCreateError", "SystemInFlux"); ("PublishSubscribeOpenOrCreateError", "SystemInFlux") ]
-  /\ known_top_collisions = [ ("ServiceRemoveError", "INTERRUPT"); ("EventOpenOrCreateError", "C_INTERRUPT") ]
-  /\ known_leaf_collapses = (known_top_collisions ++
+  known_leaf_collapses =
        [ ("SendError", "CONNECTION_ERROR"); ("RequestSendError", "CONNECTION_ERROR");
          ("ReceiveError", "FAILED_TO_ESTABLISH_CONNECTION"); ("ReceiveError", "UNABLE_TO_MAP_SENDERS_DATA_SEGMENT");
-         ("ConnectionFailure", "FAILED_TO_ESTABLISH_CONNECTION"); ("ConnectionFailure", "UNABLE_TO_MAP_SENDERS_DATA_SEGMENT") ])%list
-  /\ known_zero = [ ("ConnectionFailure", "FAILED_TO_ESTABLISH_CONNECTION") ]
+         ("ConnectionFailure", "FAILED_TO_ESTABLISH_CONNECTION"); ("ConnectionFailure", "UNABLE_TO_MAP_SENDERS_DATA_SEGMENT") ]
   /\ known_dup_names = [ "iox2_event_open_or_create_error_e"; "iox2_pub_sub_open_or_create_error_e"; "iox2_request_response_open_or_create_error_e" ]
   /\ known_name_clashes = [ "EventOpenOrCreateError"; "PublishSubscribeOpenOrCreateError"; "RequestResponseOpenOrCreateError" ].
 Proof. repeat split. Qed.
